@@ -1262,6 +1262,9 @@ impl HnswBackend {
         let mut snapshot_last_wal_seq = 0u64;
         let mut snapshot_timestamp = 0u64;
         let mut max_wal_seq = 0u64;
+        // Set when the published snapshot was unreadable and an older one was loaded instead.
+        let mut fallback_snapshot_seq: Option<u64> = None;
+        let mut min_wal_seq_seen: Option<u64> = None;
 
         if let Some(snapshot_name) = &manifest.latest_snapshot {
             let snapshot_path = data_dir.join(snapshot_name);
@@ -1322,6 +1325,7 @@ impl HnswBackend {
                     }
 
                     if recovered_from_fallback {
+                        fallback_snapshot_seq = Some(snapshot_last_wal_seq);
                         warn!(
                             documents = documents.len(),
                             "snapshot loaded from fallback (primary corrupted)"
@@ -1388,6 +1392,9 @@ impl HnswBackend {
                 if entry.seq_no > max_wal_seq {
                     max_wal_seq = entry.seq_no;
                 }
+                if entry.seq_no > 0 && min_wal_seq_seen.map_or(true, |m| entry.seq_no < m) {
+                    min_wal_seq_seen = Some(entry.seq_no);
+                }
 
                 // Skip entries already captured in snapshot (sequence-based)
                 if snapshot_last_wal_seq > 0
@@ -1451,6 +1458,27 @@ impl HnswBackend {
                 wal_segment = wal_name,
                 "wal replay complete"
             );
+        }
+
+        // A fallback snapshot is only a valid base if the retained WAL still covers everything
+        // after it. WAL compaction deletes segments that the *published* snapshot covers, so an
+        // older fallback snapshot can leave a hole that replay would silently skip.
+        if let (RecoveryMode::Strict, Some(fallback_seq)) = (recovery_mode, fallback_snapshot_seq) {
+            let published_seq = manifest.latest_snapshot_wal_seq.unwrap_or(0);
+            if fallback_seq < published_seq {
+                let covered = matches!(
+                    min_wal_seq_seen,
+                    Some(first) if first <= fallback_seq.saturating_add(1)
+                );
+                if !covered {
+                    anyhow::bail!(
+                        "strict recovery mode: published snapshot (wal seq {}) is unreadable and the                          fallback snapshot only covers wal seq {}, but the retained WAL starts at {:?};                          the entries in between were compacted, refusing to start with missing data",
+                        published_seq,
+                        fallback_seq,
+                        min_wal_seq_seen
+                    );
+                }
+            }
         }
 
         // Rebuild HNSW index from recovered documents.
